@@ -20,6 +20,7 @@ typedef struct DPlan {
     char sub[8];               /* c17 | c18 */
     int mode;                  /* 0 pre-started daemon, 1 lazy launch by the clients, 2 pre-started with 1 s idle timeout */
     int verbose;
+    int race;                  /* 1: the daemon is the -fsanitize=thread image and sim/race.c watches it */
     int nclients; PClient c[64];
     int nbad; PBad b[24];
 } DPlan;
@@ -77,7 +78,9 @@ static void plan_gen(DPlan *P, uint64_t seed, const RunOpts *o) {
     if (c18 && P->mode == 2) P->mode = 0;
     if (o->sub && strcmp(o->sub, "c17idle") == 0) { P->mode = 2; strcpy(P->sub, "c17"); }
     P->verbose = sim_rndn(3) == 0;
-    int maxc = quick ? 8 : (sim_rndn(8) == 0 ? 48 : 12);
+    P->race = !c18 && sim_rndn(4) == 0;
+    if (o->sub && strcmp(o->sub, "c17race") == 0) { P->race = 1; strcpy(P->sub, "c17"); }
+    int maxc = quick ? 8 : (sim_rndn(8) == 0 ? 64 : 12);
     if (c18) maxc = 4;
     P->nclients = 1 + (int)sim_rndn((uint32_t)maxc);
     uint64_t window = sim_rndn(3) == 0 ? 0 : 1 + sim_rndn(5000);
@@ -116,7 +119,7 @@ static void plan_gen(DPlan *P, uint64_t seed, const RunOpts *o) {
 static void plan_print(DPlan *P, uint64_t seed, Buf *b) {
     buf_printf(b, "family daemon\nsub %s\nseed %llu\n", P->sub, (unsigned long long)seed);
     knobs_print(b);
-    buf_printf(b, "mode %d\nverbose %d\n", P->mode, P->verbose);
+    buf_printf(b, "mode %d\nverbose %d\nrace %d\n", P->mode, P->verbose, P->race);
     for (int i = 0; i < P->nclients; i++)
         buf_printf(b, "client prog=%s tok=%d arrive=%llu kill=%d copkill=%d\n", P->c[i].prog, P->c[i].tok, (unsigned long long)P->c[i].arrive, P->c[i].kill_sys, P->c[i].copkill);
     for (int i = 0; i < P->nbad; i++)
@@ -134,6 +137,7 @@ static bool plan_parse(DPlan *P, uint64_t *seed, const char *path) {
         else if (strncmp(line, "knob ", 5) == 0) knobs_parse_line(line);
         else if (sscanf(line, "mode %d", &t) == 1) P->mode = t;
         else if (sscanf(line, "verbose %d", &t) == 1) P->verbose = t;
+        else if (sscanf(line, "race %d", &t) == 1) P->race = t;
         else if (sscanf(line, "client prog=%31s tok=%d arrive=%llu kill=%d copkill=%d", prog, &t, &a, &k, &arg) >= 4 && P->nclients < 64) {
             PClient *c = &P->c[P->nclients++]; snprintf(c->prog, sizeof c->prog, "%s", prog); c->tok = t; c->arrive = a; c->kill_sys = k; c->copkill = 0;
             { int ck = 0; if (sscanf(line, "client prog=%*s tok=%*d arrive=%*u kill=%*d copkill=%d", &ck) == 1) c->copkill = ck; }
@@ -354,6 +358,8 @@ static void fam_prepare(uint64_t seed, const RunOpts *o) {
     }
 }
 
+extern bool race_on; extern uint64_t race_accesses, race_sync_ops, race_threads, race_cells_full;
+void race_reset(void); int race_count(void); bool race_describe(int i, char *sig, size_t ssz, Buf *detail);
 static void fam_run(uint64_t seed, const RunOpts *o, Result *r) {
     static DPlan P;
     if (o->planfile) { if (!plan_parse(&P, &seed, o->planfile)) { strcpy(r->verdict, "error"); return; } r->seed = seed; }
@@ -365,6 +371,7 @@ static void fam_run(uint64_t seed, const RunOpts *o, Result *r) {
 
     SimKnobs saved = K;
     sim_reset(); K = saved; sim_seed(seed ^ 0x5DEECE66Dull);
+    race_reset(); race_on = sim_race_daemon = P.race != 0;
     extern int audit_mode; extern uint64_t audit_stride; audit_mode = 1; audit_stride = 17;
     snprintf(sock_path, sizeof sock_path, "/tmp/nanolang_vm_%u.sock", 4242u);
 
@@ -410,6 +417,12 @@ static void fam_run(uint64_t seed, const RunOpts *o, Result *r) {
     if (audit_fail) { res_violation(r, "C14", "audit:%s", audit_msg); buf_printf(&r->detail, "C14 audit failed in a daemon run: %s\n", audit_msg); }
     extern uint64_t alloc_double_free;
     if (alloc_double_free) res_violation(r, "C14", "double-free");
+    for (int i = 0; i < race_count(); i++) {
+        char sg[600]; Buf d = {0};
+        if (race_describe(i, sg, sizeof sg, &d)) { res_violation(r, "C17", "data-race:%s", sg); buf_printf(&r->detail, "%.*s", (int)d.len, (char *)d.d); }
+        buf_free(&d);
+    }
+    if (P.race) { probe(r, "race_detector_runs", 1); probe(r, "race_accesses_checked", race_accesses); probe(r, "race_sync_edges", race_sync_ops); probe(r, "race_threads", race_threads); probe(r, "race_table_full", race_cells_full); }
     if (rc == 1) { res_violation(r, prop, "budget:steps-exhausted"); buf_printf(&r->detail, "scheduling step budget exhausted (no quiescence)\n"); }
     if (rc == 2) { res_violation(r, prop, "budget:fuel-exhausted"); buf_printf(&r->detail, "basic-block budget exhausted\n"); }
     /* find the daemon process when it was launched lazily */
